@@ -3,7 +3,7 @@ import numpy as np
 
 from common import Cvec, R, cfl, fl, max_rel_err
 
-LEAN_MODULES = ["PyomaVerif.Props.C02", "PyomaVerif.Mutants.C02"]
+LEAN_MODULES = ["PyomaVerif.Props.C02", "PyomaVerif.Props.C02C01", "PyomaVerif.Mutants.C02"]
 THEOREMS = [
     "PV.C02.C02_merge",
     "PV.C02.tail_merge",
@@ -14,6 +14,26 @@ THEOREMS = [
     "PV.Merge.pick_map",
     "PV.Merge.delete_map",
     "PV.Mutants.C02.old_merge_wrong",
+    # C02 ∘ C01: shapes that come out of SSI runs (Props/C02C01.lean, Lemmas/PoserE2E.lean)
+    "PV.C02C01.C02C01_setup_shape",
+    "PV.C02C01.C02C01_identified_fast",
+    "PV.C02C01.C02C01_identified_legacy",
+    "PV.C02C01.identified_shape",
+    "PV.C02C01.C02C01_good",
+    "PV.C02C01.C02_e2e_mode",
+    "PV.C02C01.C02_e2e_mode_monophase",
+    "PV.C02C01.C02_e2e",
+    "PV.C02C01.C02_e2e_monophase",
+    "PV.C02C01.C02_e2e_real",
+    "PV.C02C01.C02_e2e_stats",
+    "PV.C02C01.C02_merge_complex",
+    "PV.C02C01.C02_e2e_mode_complex",
+    "PV.C02C01.complex_not_global",
+    "PV.normalise_scale",
+    "PV.normalise_eq_scale",
+    "PV.argmaxNormSq_spec",
+    "PV.setup_shape",
+    "PV.shape_of_similar",
 ]
 RULE = (
     "correspondence: gen.MSF, gen.merge_mode_shapes (complex inputs as exact Gaussian rationals, 1e-10), the multi-setup "
@@ -103,11 +123,21 @@ def correspondence(ctx):
         rows, refs, G, s, phis, cplx = _case(ctx)
         if rng.random() < 0.5:
             phis = [p + 0.1 * g.standard_normal(p.shape) for p in phis]  # arbitrary, no common G
+        int_dtype = (not cplx) and rng.random() < 0.4
+        if int_dtype:
+            # shapes handed over as integer arrays (hand-typed, as in the library's own unit test: plain int64, moderate
+            # magnitudes so that no product can overflow): the re-scaled roving values are not integers
+            phis = [np.rint(p / np.maximum(np.abs(p).max(axis=0, keepdims=True), 1e-300) * rng.choice([12, 40, 1000])).astype(np.int64)
+                    for p in phis]
+            ctx.count("merge_integer_dtype")
         nref = len(refs[0])
         ok_guard = all(
             np.all(np.abs((p[r, :] * p[r, :]).sum(axis=0)) > 1e-3 * (np.abs(p[r, :]) ** 2).sum(axis=0)) for p, r in zip(phis, refs)
         )
         if not ok_guard:
+            ctx.skipped += 1
+            continue
+        if int_dtype and not all(np.abs(p[r, :]).sum(axis=0).min() > 0 for p, r in zip(phis, refs)):
             ctx.skipped += 1
             continue
         impl = gen.merge_mode_shapes(MSarr_list=[p.copy() for p in phis], reflist=[list(r) for r in refs])
@@ -175,10 +205,25 @@ def oracle(ctx, scale):
         if not _guard(G, nref):
             ctx.skipped += 1
             continue
+        through_class = rng.random() < 0.25
+        if not cplx and not through_class and rng.random() < 0.2:
+            # integer-valued shapes and factors handed over as integer arrays (the re-scaling s0/si is not an integer)
+            # (the roving sensors of the later setups are integers only in their own setup's scale)
+            G = np.rint(G / np.abs(G).max() * 12.0)
+            s = g.choice([-8.0, -4.0, -2.0, 2.0, 4.0, 8.0], size=s.shape)
+            s[0, :] = g.choice([-2.0, -1.0, 1.0, 2.0], size=s.shape[1])
+            for i in range(1, len(rows)):
+                for r_ in rows[i]:
+                    if r_ >= nref:
+                        G[r_, :] = g.integers(-12, 13, size=G.shape[1]) / s[i, :]
+            if not _guard(G, nref) or np.any(np.abs(G[:nref, :]).sum(axis=0) == 0):
+                ctx.skipped += 1
+                continue
+            phis = [np.array(G[rows[i], :] * s[i][None, :]).astype(np.int64) for i in range(len(rows))]
+            ctx.count("oracle_integer_dtype")
         order = _expected_order(rows, refs)
         expect = G[order, :] * s[0][None, :]
         nset = len(rows)
-        through_class = rng.random() < 0.25
         fns = xis = None
         if through_class:
             nm = G.shape[1]
@@ -186,7 +231,16 @@ def oracle(ctx, scale):
             groups = []
             for gi in range(ngroups):
                 sg = s if gi == 0 else np.exp(g.uniform(np.log(0.05), np.log(20), size=s.shape)) * g.choice([-1.0, 1.0], size=s.shape)
-                groups.append(([np.array(G[rows[i], :] * sg[i][None, :]) for i in range(nset)], g.uniform(1, 20, size=(nset, nm)), g.uniform(0.005, 0.05, size=(nset, nm)), sg))
+                f_g, x_g = g.uniform(1, 20, size=(nset, nm)), g.uniform(0.005, 0.05, size=(nset, nm))
+                if gi == 0 and rng.random() < 0.6:
+                    # setups that agree to many digits (noise-free identification): the dispersion is tiny but defined
+                    spread = 10.0 ** rng.uniform(-8, -5)
+                    f_g = f_g[0:1, :] * (1.0 + spread * g.uniform(-1, 1, size=(nset, nm)))
+                    x_g = x_g[0:1, :] * (1.0 + spread * g.uniform(-1, 1, size=(nset, nm)))
+                    if rng.random() < 0.3:
+                        f_g = np.repeat(f_g[0:1, :], nset, axis=0)  # identical in every setup: dispersion 0
+                    ctx.count("stats_near_equal_setups")
+                groups.append(([np.array(G[rows[i], :] * sg[i][None, :]) for i in range(nset)], f_g, x_g, sg))
             allres, names = _poser_with_stub_results(ctx, rows, refs, [(a, b, c) for (a, b, c, _d) in groups])
             ctx.oracle_cases += 1
             if sorted(allres.keys()) != sorted(names):
@@ -250,11 +304,18 @@ def oracle(ctx, scale):
             return
         if through_class:
             ctx.oracle_cases += 1
+            def _disp_ok(got, vals):
+                # population std / mean; the two-pass formula loses eps*mean/std relative accuracy, no more
+                want = np.sqrt(((vals - vals.mean(axis=0)) ** 2).mean(axis=0)) / vals.mean(axis=0)
+                tol = 1e-9 * np.abs(want) + 50 * np.finfo(float).eps + 1e-13 * (want < 1e-9)
+                rel = 1e-9 + 50 * np.finfo(float).eps / np.maximum(np.abs(want), 1e-300)
+                return bool(np.all(np.abs(np.asarray(got) - want) <= np.maximum(tol, rel * np.abs(want))))
+
             ok = (
                 np.allclose(res.Fn, fns.mean(axis=0), rtol=1e-12)
                 and np.allclose(res.Xi, xis.mean(axis=0), rtol=1e-12)
-                and np.allclose(res.Fn_cov, np.sqrt(((fns - fns.mean(axis=0)) ** 2).mean(axis=0)) / fns.mean(axis=0), rtol=1e-9)
-                and np.allclose(res.Xi_cov, np.sqrt(((xis - xis.mean(axis=0)) ** 2).mean(axis=0)) / xis.mean(axis=0), rtol=1e-9)
+                and _disp_ok(res.Fn_cov, fns)
+                and _disp_ok(res.Xi_cov, xis)
             )
             if not ok:
                 ctx.violation("stats", "merged Fn/Xi are not the means or the dispersion is not population-std/mean", inp | {"fns": fns.tolist(), "xis": xis.tolist()},
